@@ -463,7 +463,7 @@ def run(ctx):
                     continue
                 seed = ctx.seed * 1000 + s
                 if s == 0:
-                    seed = [0, 1, 2**32 - 1, 2**63 - 1][job % 4]  # special seed values (0 is falsy, largest uint32 / int63)
+                    seed = [0, 2**32 - 1, 1, 2**63 - 1][(job // max(1, seeds)) % 4]  # special seed values (0 is falsy, largest uint32 / int63)
                 other = configs[(job * 7) % len(configs)]
                 others = [('config', data, seed), ('config', data, seed + 17), ('config', other[2], seed)]
                 payload = {'config': name, 'seed': seed, 'nops': nops, 'sched': job}
